@@ -15,6 +15,8 @@ pub struct WxmlCfg {
     pub slot: bool,
     pub wxs: bool,
     pub slot_refs: bool,
+    /// include the dynamic-slot component tag `dyn-c` (stub DOM: three fixed slot instances with slot values)
+    pub dyn_tags: bool,
     pub comments: bool,
     /// attribute families to draw from
     pub families: Vec<AttrKind>,
@@ -53,7 +55,7 @@ impl WxmlCfg {
         e.small_numbers = true;
         e.instanceof = false;
         e.spread_ident = false;
-        WxmlCfg { depth, max_kids: 4, expr: e, tis: true, include: true, slot: true, wxs: true, slot_refs: false, comments: true, families: all_families(), dyn_weight: 6, rich_text: true }
+        WxmlCfg { depth, max_kids: 4, expr: e, tis: true, include: true, slot: true, wxs: true, slot_refs: false, dyn_tags: false, comments: true, families: all_families(), dyn_weight: 6, rich_text: true }
     }
 }
 
@@ -277,7 +279,8 @@ pub fn node(cfg: &WxmlCfg, depth: u32) -> BoxedStrategy<Node> {
         return leaf_node(cfg);
     }
     let kids = proptest::collection::vec(node(cfg, depth - 1), 0..=cfg.max_kids);
-    let el = (pick(TAGS), proptest::collection::vec(attr(cfg), 0..5), opt_slot_val(cfg), kids.clone())
+    let tag = if cfg.dyn_tags { prop_oneof![6 => pick(TAGS), 1 => Just("dyn-c".to_string())].boxed() } else { pick(TAGS) };
+    let el = (tag, proptest::collection::vec(attr(cfg), 0..5), opt_slot_val(cfg), kids.clone())
         .prop_map(|(tag, attrs, slot, kids)| Node::El(El { tag, attrs: dedup_attrs(attrs, false), slot, slot_refs: vec![], kids }))
         .boxed();
     let branch = (val(cfg), kids.clone(), carrier()).prop_map(|(c, kids, carrier)| Branch { cond: Some(c), kids, carrier });
@@ -338,8 +341,16 @@ pub fn group(cfg: &WxmlCfg) -> BoxedStrategy<Group> {
         Just(vec![]).boxed()
     };
     let imports = proptest::collection::vec(prop_oneof![Just("lib/t"), Just("/lib/t.wxml"), Just("./lib/u"), Just("lib/u")].prop_map(|s: &str| s.to_string()), 0..3);
-    (body(cfg), named(&named_cfg), wxs, imports, body(&inner), body(&inner), named(&named_cfg), named(&named_cfg))
-        .prop_map(|(body, named, wxs, imports, inc_a, inc_b, lib_t, lib_u)| {
+    let slot_refs = cfg.slot_refs;
+    (body(cfg), named(&named_cfg), wxs, imports, body(&inner), body(&inner), named(&named_cfg), named(&named_cfg), any::<u64>())
+        .prop_map(move |(body, named, wxs, imports, inc_a, inc_b, lib_t, lib_u, deco)| {
+            let (mut body, mut inc_a, mut inc_b) = (body, inc_a, inc_b);
+            if slot_refs {
+                let mut rng = crate::util::Rng::new(deco | 1);
+                add_slot_refs(&mut body, &mut rng);
+                add_slot_refs(&mut inc_a, &mut rng);
+                add_slot_refs(&mut inc_b, &mut rng);
+            }
             let dedup_named = |v: Vec<(String, Vec<Node>)>| {
                 let mut seen = std::collections::HashSet::new();
                 v.into_iter().filter(|(n, _)| seen.insert(n.clone())).collect::<Vec<_>>()
@@ -381,6 +392,7 @@ pub fn add_slot_refs(nodes: &mut Vec<Node>, rng: &mut crate::util::Rng) {
                     Node::Block(b) => Some(&mut b.slot_refs),
                     _ => None,
                 };
+                let mut declared: Vec<String> = vec![];
                 if let (true, Some(refs)) = (decorate, refs) {
                     let cnt = 1 + rng.below(3) as usize;
                     for _ in 0..cnt {
@@ -389,7 +401,33 @@ pub fn add_slot_refs(nodes: &mut Vec<Node>, rng: &mut crate::util::Rng) {
                             continue;
                         }
                         let alias = if rng.chance(1, 3) { Some(format!("al{}", rng.below(3))) } else { None };
-                        refs.push(SlotRef { name, alias });
+                        let r = SlotRef { name, alias };
+                        declared.push(r.scope_name());
+                        refs.push(r);
+                    }
+                }
+                // the declared values are read: directly under the declaring node and one element level deeper
+                if !declared.is_empty() {
+                    let reads = |names: &[String]| {
+                        let mut ps = vec![Piece::Lit("[".into())];
+                        for n in names {
+                            ps.push(Piece::Bind(Expr::Ident(n.clone())));
+                            ps.push(Piece::Lit("|".into()));
+                        }
+                        Node::Text(ps)
+                    };
+                    let kids = match k {
+                        Node::El(c) => Some(&mut c.kids),
+                        Node::Block(b) => Some(&mut b.kids),
+                        _ => None,
+                    };
+                    if let Some(kids) = kids {
+                        if let Some(Node::El(g)) = kids.iter_mut().find(|x| matches!(x, Node::El(_))) {
+                            g.kids.push(reads(&declared));
+                        } else if rng.chance(1, 2) {
+                            kids.push(Node::El(El { tag: "text".into(), attrs: vec![], slot: None, slot_refs: vec![], kids: vec![reads(&declared)] }));
+                        }
+                        kids.push(reads(&declared));
                     }
                 }
             }
